@@ -39,6 +39,11 @@ Definition check_case (c : case) : list (N * N * N) :=
   | GSlice self follower members replies obs =>
       (if set_eqb entry_eqb (global_slice self follower members replies) obs then [] else [(id, 1, 0)])
       ++ (if nodupb (akeys obs) && forallb (fun e => nodupb (akeys (snd e))) obs then [] else [(id, 30, 0)])
+      (* code 32: a member that could not be asked is cluster_error for every listed cid *)
+      ++ (if forallb (fun mr => match snd mr with
+                                | SErr => forallb (fun e => optN_eqb (aget (fst mr) (snd e)) (Some 2)) obs
+                                | _ => true end) (combine (if follower then [self] else members) replies)
+          then [] else [(id, 32, 0)])
   end.
 
 Definition failing (cs : list case) : list (N * N * N) := flat_map check_case cs.
